@@ -180,7 +180,19 @@ func init() {
 						out = append(out, &Config{ID: fmt.Sprintf("C06/V/%s/syntax%d/%d", eco, n, k), Pkg: zzhPkg, Func: "C06V", NoPanic: true, ScalarMergeOnly: true, Args: []ArgSpec{ArgStr(eco), ArgTmpl(t)}})
 					}
 				}
+				// bytes >= 0x80: every byte that is not the lead of a 3- or 4-byte sequence (symbolic), a
+				// symbolic two-byte sequence inside a version, and concrete 3- and 4-byte runes
+				nonASCII := []string{"{[\\x00-\\xdf\\xf5-\\xff]}", "{[\\x00-\\xdf\\xf5-\\xff]}{[\\x00-\\xdf\\xf5-\\xff]}", "{d}.{d}{[\\xc2-\\xdf]}{[\\x80-\\xbf]}", "{d}{[\\xc2-\\xdf]}{[\\x80-\\xbf]}.{d}",
+					"{d}.{d}\xe4\xb8\xad", "\xe4\xb8\xad{d}", "{d}.{d}\xf0\x9f\x98\x80", "{d}.{d}.{d}-{[\\xc2-\\xdf]}{[\\x80-\\xbf]}"}
+				for k, t := range nonASCII {
+					out = append(out, &Config{ID: fmt.Sprintf("C06/V/%s/utf8/%d", eco, k), Pkg: zzhPkg, Func: "C06V", NoPanic: true, ScalarMergeOnly: true, Args: []ArgSpec{ArgStr(eco), ArgTmpl(t)}})
+				}
 				probe := thin(versionTemplates(eco, "s"), 2)
+				for k, t := range nonASCII {
+					for _, pre := range []string{"", ">="} {
+						out = append(out, &Config{ID: fmt.Sprintf("C06/R/%s/utf8/%s%d", eco, pre, k), Pkg: zzhPkg, Func: "C06R", NoPanic: true, ScalarMergeOnly: true, Args: []ArgSpec{ArgStr(eco), ArgTmpl(pre + t), ArgTmpl(probe[0])}})
+					}
+				}
 				for n := 0; n <= nr; n++ {
 					for _, p := range probe {
 						for k, t := range splitIf(n >= 4, rawTemplate("A", n), 8) {
@@ -243,7 +255,7 @@ func init() {
 			return out
 		},
 		Bounds: func(tier string) string {
-			return "vers.Contains with raw ASCII tails <= 4/5 bytes after 5 scheme prefixes, raw heads <= 6/7, raw versions <= 3, tails <= 8/9 over a 19-symbol VERS alphabet; CLI argument vectors of 0-5 arguments with raw ASCII names, commands and arguments (2-3 bytes); all ASCII strings of length <= 5 (quick) / 7 (thorough) for version parsers and <= 4 / 5 for range parsers, plus strings up to 7 / 9 (versions; thorough: gem 7, maven 8) and 6 / 7 (ranges; thorough: gem and cargo 6) over a 25-symbol syntax alphabet; probes for Contains from 2 grammar templates; bytes >= 0x80, the quadratic time bound and long inputs are outside the claim"
+			return "vers.Contains with raw ASCII tails <= 4/5 bytes after 5 scheme prefixes, raw heads <= 6/7, raw versions <= 3, tails <= 8/9 over a 19-symbol VERS alphabet; CLI argument vectors of 0-5 arguments with raw ASCII names, commands and arguments (2-3 bytes); all ASCII strings of length <= 5 (quick) / 7 (thorough) for version parsers and <= 4 / 5 for range parsers, plus strings up to 7 / 9 (versions; thorough: gem 7, maven 8) and 6 / 7 (ranges; thorough: gem and cargo 6) over a 25-symbol syntax alphabet; probes for Contains from 2 grammar templates; per entry point 8 templates with bytes >= 0x80 (all one- and two-byte strings without leads of 3-/4-byte sequences, symbolic two-byte runes inside versions, concrete 3- and 4-byte runes); symbolic 3-/4-byte sequences, the quadratic time bound and long inputs are outside the claim"
 		},
 		MaxPaths: 3000000,
 	})
